@@ -186,7 +186,7 @@ def run(ctx) -> None:
             continue
         scen, v0 = inits[sk]
         root = world.build(v0)
-        out = C.execute(world, hist[-1], r, [root])
+        out = C.execute(world, hist[-1], r, [root], salt=len(hist))
         good_log, bad_log = [], []
         C.Judge(ctx, world, "C04", collect=good_log).judge(scen, hist, r, [v0], out)
         if op == "Normalise" and out[0] == "val":
